@@ -142,10 +142,14 @@ int main(int argc, char** argv) {
       } else if (op == "neg") {
         SU_vector r = -a;
         expect_vec("-a", r, R, SA);
+        { SU_vector c1 = a; SU_vector r3 = -SU_vector(a), r4 = -std::move(c1), r5 = -(a + a), aa = a + a, e5 = -aa;
+          expect_same("-rvalue", r3, r, 0); expect_same("-move(a)", r4, r, 0); expect_same("-(a+a)", r5, e5, 0); }
         for (int k = 0; k < d * d; k++) if (r[k] != -a[k]) { mismatch("-a:bits", 1, 0); break; }
         SU_vector r2; r2 = -a; expect_same("assign(-a)", r2, r, 0);
       } else if (op == "scale") {
         double x = (double)p[0];
+        { SU_vector c1 = a, c2 = a; SU_vector q1 = SU_vector(a) * x, q2 = x * SU_vector(a), q3 = std::move(c1) * x, q4 = x * std::move(c2), q0 = a * x;
+          expect_same("rvalue*x", q1, q0, 0); expect_same("x*rvalue", q2, q0, 0); expect_same("move(a)*x", q3, q0, 0); expect_same("x*move(a)", q4, q0, 0); }
         SU_vector r = a * x, r2 = x * a, r3 = a; r3 *= x;
         expect_vec("a*x", r, R, SA * std::fabs(x));
         expect_same("x*a", r2, r, 0); expect_same("a*=x", r3, r, 0);
@@ -166,10 +170,27 @@ int main(int argc, char** argv) {
       } else if (op == "add") {
         SU_vector r = a + b, r2 = a; r2 += b;
         expect_vec("a+b", r, R, SA + SB); expect_same("a+=b", r2, r, 0);
+        { // every value category of the operands (temporaries and moved-from copies)
+          SU_vector c1 = a, c2 = b, c3 = a, c4 = b;
+          SU_vector r3 = SU_vector(a) + b, r4 = a + SU_vector(b), r5 = SU_vector(a) + SU_vector(b), r6 = std::move(c1) + b, r7 = a + std::move(c2), r8 = std::move(c3) + std::move(c4);
+          expect_same("rvalue+b", r3, r, 0); expect_same("a+rvalue", r4, r, 0); expect_same("rvalue+rvalue", r5, r, 0);
+          expect_same("move(a)+b", r6, r, 0); expect_same("a+move(b)", r7, r, 0); expect_same("move(a)+move(b)", r8, r, 0);
+          SU_vector r9 = (a + b) + b, r10 = a + (b + b), e9 = r + b; expect_same("(a+b)+b", r9, e9, 0);
+          SU_vector bb = b + b, e10 = a + bb; expect_same("a+(b+b)", r10, e10, 0);
+        }
         for (int k = 0; k < d * d; k++) if (r[k] != a[k] + b[k]) { mismatch("a+b:bits", 1, 0); break; }
       } else if (op == "sub") {
         SU_vector r = a - b, r2 = a; r2 -= b;
         expect_vec("a-b", r, R, SA + SB); expect_same("a-=b", r2, r, 0);
+        { // every value category of the operands
+          SU_vector c1 = a, c2 = b, c3 = a, c4 = b;
+          SU_vector r3 = SU_vector(a) - b, r4 = a - SU_vector(b), r5 = SU_vector(a) - SU_vector(b), r6 = std::move(c1) - b, r7 = a - std::move(c2), r8 = std::move(c3) - std::move(c4);
+          expect_same("rvalue-b", r3, r, 0); expect_same("a-rvalue", r4, r, 0); expect_same("rvalue-rvalue", r5, r, 0);
+          expect_same("move(a)-b", r6, r, 0); expect_same("a-move(b)", r7, r, 0); expect_same("move(a)-move(b)", r8, r, 0);
+          SU_vector bb = b + b, r9 = a - (b + b), e9 = a - bb; expect_same("a-(b+b)", r9, e9, 0);
+          SU_vector r10 = a - (2.0 * b), tb = 2.0 * b, e10 = a - tb; expect_same("a-(2*b)", r10, e10, 0);
+          SU_vector r11 = (a + b) - b, ab = a + b, e11 = ab - b; expect_same("(a+b)-b", r11, e11, 0);
+        }
         for (int k = 0; k < d * d; k++) if (r[k] != a[k] - b[k]) { mismatch("a-b:bits", 1, 0); break; }
       } else if (op == "eq") {
         bool e = (a == b);
@@ -178,6 +199,12 @@ int main(int argc, char** argv) {
         // vectors of another dimension never compare equal
         SU_vector o(d == 6 ? 5 : d + 1);
         if (a == o || o == a) mismatch("==otherdim", 1, 0);
+        // numerically equal components compare equal whatever their bit pattern: -0.0 == +0.0
+        { SU_vector z = a, z2 = a; bool any0 = false;
+          for (int k = 0; k < d * d; k++) if (z[k] == 0.0) { z[k] = -0.0; z2[k] = 0.0; any0 = true; }
+          if (!(z == z2) || !(z2 == z)) mismatch("==signed-zero", 1, 0);
+          SU_vector m = -(a - a), zero(d); if (!(m == zero)) mismatch("==-(a-a)", 1, 0);
+          (void)any0; }
         // one differing slot
         for (int k = 0; k < d * d; k++) { SU_vector c = a; c[k] += 1.0; if (c == a) { mismatch("==oneslot" + std::to_string(k), 1, 0); break; } }
       } else if (op == "icom") {
@@ -225,6 +252,20 @@ int main(int argc, char** argv) {
         }
         // identity component and scalar products are preserved
         if (!(std::fabs(r[0] - a[0]) <= TOLF * EPS * (SA > 0 ? SA : 1))) mismatch("identity-component", std::fabs(r[0] - a[0]), 0);
+      } else if (op == "wrot") {
+        int np = d * (d - 1) / 2;
+        std::vector<long> hv(h.begin(), h.begin() + 2 * np), hw(h.begin() + 2 * np, h.begin() + 4 * np);
+        Const pv, pw; set_params(pv, d, hv); set_params(pw, d, hw);
+        Mat Ym(d); for (int i = 0; i < d; i++) Ym(i, i) = (double)h[4 * np + i];
+        SU_vector Y = vec_from_matrix(Ym);
+        double SY = 0; for (int i = 0; i < d; i++) SY = std::max(SY, std::fabs((double)h[4 * np + i]));
+        double S = SA * 64 * std::max(1.0, SY * SY);
+        SU_vector r1 = a; r1.WeightedRotation(pv, Y, pw);
+        expect_vec("WeightedRotation(Const)", r1, R, S);
+        auto V = pv.GetTransformationMatrix(d); auto W = pw.GetTransformationMatrix(d);
+        SU_vector r2 = a; r2.WeightedRotation(V.get(), Y, W.get());
+        expect_vec("WeightedRotation(matrix)", r2, R, S);
+        expect_same("WeightedRotation:overloads-agree", r2, r1, TOLF * EPS * (S > 0 ? S : 1));
       } else if (op == "mixing") {
         Const params; set_params(params, d, h);
         auto U = params.GetTransformationMatrix(d);
